@@ -72,3 +72,48 @@ def pySpaces : List Nat := {lean_list([str(c) for c in spaces])}
 end Wz.Gen.Paths
 """
     return write("Paths", body, "src/werkzeug/security.py, src/werkzeug/utils.py")
+
+
+def _fn(tree, path):
+    """nested function lookup: ['SharedDataMiddleware', 'get_package_loader', 'loader']"""
+    node = tree
+    for name in path:
+        found = [n for n in ast.walk(node) if isinstance(n, (ast.FunctionDef, ast.ClassDef)) and n.name == name and n is not node]
+        if not found:
+            raise RuntimeError("static glue: " + ".".join(path) + " not found")
+        node = found[0]
+    return node
+
+
+def _glue_facts(fn, var):
+    """(RHS texts of the assignments to `var`, callee names of every call) inside `fn`"""
+    assigns, calls = [], []
+    for n in ast.walk(fn):
+        if isinstance(n, ast.Assign) and any(isinstance(t, ast.Name) and t.id == var for t in n.targets):
+            assigns.append(ast.unparse(n.value))
+        if isinstance(n, (ast.AugAssign, ast.AnnAssign)) and isinstance(n.target, ast.Name) and n.target.id == var:
+            assigns.append(ast.unparse(n))
+        if isinstance(n, ast.NamedExpr) and n.target.id == var:
+            assigns.append(ast.unparse(n.value))
+        if isinstance(n, ast.Call):
+            calls.append(ast.unparse(n.func))
+    return assigns, sorted(set(calls))
+
+
+@generator("StaticGlue")
+def gen_static_glue():
+    """AST facts about the static-file helpers: what is assigned to the joined path after safe_join,
+    and which functions are called at all (no decoding / rewriting behind the containment check)"""
+    utils = ast.parse(open(os.path.join(REPO, "src", "werkzeug", "utils.py")).read())
+    sdm = ast.parse(open(os.path.join(REPO, "src", "werkzeug", "middleware", "shared_data.py")).read())
+    facts = {
+        "sfd": _glue_facts(_fn(utils, ["send_from_directory"]), "path_str"),
+        "dirLoader": _glue_facts(_fn(sdm, ["SharedDataMiddleware", "get_directory_loader", "loader"]), "path"),
+        "pkgLoader": _glue_facts(_fn(sdm, ["SharedDataMiddleware", "get_package_loader", "loader"]), "path"),
+    }
+    defs = []
+    for k, (assigns, calls) in facts.items():
+        defs.append(f"/-- right-hand sides assigned to the joined path variable -/\ndef {k}Assigns : List String := {lean_list([lean_str(a) for a in assigns], 1)}\n")
+        defs.append(f"/-- every function called in the body -/\ndef {k}Calls : List String := {lean_list([lean_str(c) for c in calls], 1)}\n")
+    body = "namespace Wz.Gen.StaticGlue\n\n" + "\n".join(defs) + "\nend Wz.Gen.StaticGlue\n"
+    return write("StaticGlue", body, "src/werkzeug/utils.py, src/werkzeug/middleware/shared_data.py")
